@@ -61,7 +61,7 @@ class World:
     def __init__(self, em, cfg, work, rng, handle):
         self.em, self.work, self.handle = em, work, handle
         r = np.random.RandomState(rng.randrange(2 ** 31))
-        C, D = 2, 3
+        C, D = rng.choice([2, 2, 3, 12]), 3       # (legacy files name their groups m_gaussians0 ... m_gaussians11)
         self.C, self.D = C, D
         self.prior = None
         kind = rng.choice(["scalar", "vector", "matrix"])
@@ -72,7 +72,8 @@ class World:
             self.prior = em.GMMMachine(C)
             self.prior.means = r.normal(size=(C, D))
             self.prior.variances = r.uniform(0.5, 2, size=(C, D))
-            self.prior.weights = np.array([0.3, 0.7])
+            pw = r.uniform(0.2, 1, size=C)
+            self.prior.weights = pw / pw.sum()
             m = em.GMMMachine(C, trainer="map", ubm=self.prior, **kw)
         else:
             m = em.GMMMachine(C, **kw)
